@@ -86,6 +86,7 @@ func checkC08(c *Ctx) {
 	c.Floor("C08.R1", "writers of sender.frames", len(ws), 3)
 
 	c08R5(c)
+	c08R6(c)
 	c08R2(c)
 	c08R3(c)
 	c08R4(c)
@@ -1234,4 +1235,109 @@ func c09R7(c *Ctx) {
 	c.Check(kq[0] >= kl[0], "C09.R7", "tubes.(*Muxer).reapTube~(*Reliable).enterLastAckState", P.Pos(reap.Pos()),
 		fmt.Sprintf("quarantine %d x RTT >= last-ack wait %d x RTT", kq[0], kl[0]),
 		fmt.Sprintf("reapTube releases a closed tube's id after %d x RTT, but the peer may stay in lastAck for %d x RTT: a new tube can get the id while the peer still answers for the old one (its REQ is swallowed, its data acknowledged and discarded, the old FIN ends it)", kq[0], kl[0]))
+}
+
+// c08R6: the peer's FIN moves the tube only once it has been consumed in order.
+//
+// Reliable.receive changes the tube state for two reasons: an acknowledgement (everything under a test
+// of pkt.flags.ACK: our FIN was acknowledged, or the acknowledgement was invalid) and the peer's FIN.
+// Every state change that is not under the ACK test must lie, on the path, after the in-order signal:
+// the first result of recvWindow.receive found true (the FIN fragment reached the head of the window
+// and was written to the buffer behind all data), or recvWindow.closed found true (a repeated FIN after
+// that). A FIN that overtakes missing data must not close the receive window: the retransmitted data
+// would be refused and Read would report end-of-stream on a truncated stream.
+func c08R6(c *Ctx) {
+	P := c.P
+	const rule = "C08.R6"
+	c.Rule(rule, "the peer's FIN acts only in order: in Reliable.receive every change of the tube state that is not under the test of pkt.flags.ACK lies on the path after recvWindow.receive reported the FIN as processed, or after recvWindow.closed was found set (an early FIN that closes the window makes Read report end-of-stream before all bytes written before the close were delivered) (E1 decision table)")
+	fn := P.Func("tubes", "(*Reliable).receive")
+	fACK := P.Field("tubes", "frameFlags", "ACK")
+	fState := P.Field("tubes", "Reliable", "tubeState")
+	fClosed := P.Field("tubes", "receiver", "closed")
+	if fn == nil || fACK == nil || fState == nil || fClosed == nil {
+		c.Undecided(rule, "tubes.(*Reliable).receive", "function or fields not found")
+		return
+	}
+	recvID := hopID("tubes", "receiver", "receive")
+	name := FuncName(fn)
+	c.Analysed(name)
+	// module functions that store tubeState themselves
+	writers := map[*ssa.Function]bool{}
+	for _, w := range P.FieldWrites(fState, "tubes") {
+		if w.Kind == "store" {
+			writers[w.Fn] = true
+		}
+	}
+	changesState := func(ins ssa.Instruction) bool {
+		switch x := ins.(type) {
+		case *ssa.Store:
+			fa, ok := x.Addr.(*ssa.FieldAddr)
+			return ok && fieldOf(fa.X.Type(), fa.Field) == fState
+		case *ssa.Call:
+			g := staticCallee(&x.Call)
+			return g != nil && g != fn && writers[g]
+		}
+		return false
+	}
+	// blocks reachable only through the true edge of a test of pkt.flags.ACK
+	underACK := func(b *ssa.BasicBlock) bool {
+		for _, blk := range b.Parent().Blocks {
+			iff, ok := blk.Instrs[len(blk.Instrs)-1].(*ssa.If)
+			if !ok {
+				continue
+			}
+			key, pol := normCond(iff.Cond)
+			if key.op != token.ILLEGAL || !pol {
+				continue
+			}
+			if lastField(key.x) != fACK {
+				continue
+			}
+			s := blk.Succs[0]
+			if len(s.Preds) == 1 && s.Dominates(b) {
+				return true
+			}
+		}
+		return false
+	}
+	fs := newFailSet()
+	nChanges := 0
+	ok := walkAll(c, rule, fn, func(p *Path) {
+		inOrder := false
+		p.ForEach(func(i int, ins ssa.Instruction) bool {
+			if !changesState(ins) {
+				return true
+			}
+			if underACK(p.RootSite(i, ins).Block()) {
+				return true
+			}
+			nChanges++
+			// the in-order signal as known at this point of the path
+			inOrder = false
+			for key, val := range p.FactsAt(i) {
+				if key.op != token.ILLEGAL || !val {
+					continue
+				}
+				v := p.Resolve(key.x, i)
+				if ex, ok := v.(*ssa.Extract); ok && ex.Index == 0 {
+					if call, ok := ex.Tuple.(*ssa.Call); ok && calleeID(call) == recvID {
+						inOrder = true
+					}
+				}
+				if call, ok := v.(*ssa.Call); ok && !call.Call.IsInvoke() {
+					if f := calleeFunc(&call.Call); f != nil && f.Name() == "Load" && len(call.Call.Args) == 1 && lastField(call.Call.Args[0]) == fClosed {
+						inOrder = true
+					}
+				}
+			}
+			if !inOrder {
+				fs.add("fin-in-order", "Reliable.receive changes the tube state outside the acknowledgement branch on a path where neither recvWindow.receive reported the FIN as processed nor recvWindow.closed was found set: a FIN that overtakes missing data closes the tube and the stream is cut short", ins, p)
+			}
+			return true
+		})
+	})
+	if ok {
+		fs.report(c, rule, name, []string{"fin-in-order"}, P.Pos(fn.Pos()), fmt.Sprintf("holds for all %d FIN-driven state changes on the paths", nChanges))
+		c.Floor(rule, "FIN-driven state changes on paths of Reliable.receive", nChanges, 3)
+	}
 }
